@@ -211,3 +211,113 @@ Proof.
 Qed.
 
 End FrameMem.
+
+(** ** the same lift for steps with a weaker frame (LayoutSwapper: the gather without a spare buffer ends with
+    dest[:] = source[:], so beyond E the dest array then holds the *source* array's old cells).
+    [among E a l]: beyond E the array [a] coincides with one of the arrays of [l] (same lengths). *)
+Section FrameMemW.
+Variable V : Type.
+Variable dflt : V.
+Notation mems := (mems V).
+Notation fr := (fr V dflt).
+Variable L : Type.
+Variable plain : L -> L -> mems -> mems -> mems * mems.
+Variable intact : L -> L -> mems -> mems -> mems -> mems * mems.
+Variable ok : L -> L -> bool.
+Variable E : nat.
+Variable Wm : mems -> Prop.
+Hypothesis Wm_len : forall m1 m2, same_len V m1 m2 -> Wm m1 -> Wm m2.
+
+Definition among (a : mems) (l : list mems) : Prop := exists b, In b l /\ fr E b a.
+
+Hypothesis plain_frw : forall l l' f t, ok l l' = true -> Wm f -> Wm t ->
+  fr E f (fst (plain l l' f t)) /\ (fr E t (snd (plain l l' f t)) \/ fr E f (snd (plain l l' f t))).
+Hypothesis intact_frw : forall l l' f t s, ok l l' = true -> Wm f -> Wm t -> Wm s ->
+  fr E t (fst (intact l l' f t s)) /\ fr E s (snd (intact l l' f t s)).
+
+Lemma Wm_frw m1 m2 : fr E m1 m2 -> Wm m1 -> Wm m2.
+Proof. intros [H _]. apply Wm_len, H. Qed.
+
+Lemma among_trans a b l : fr E a b -> among a l -> among b l.
+Proof. intros H [c [Hc Hf]]. exists c. split; [exact Hc|eapply fr_trans; eassumption]. Qed.
+
+Lemma pingpong_among : forall steps cur f t l, route_ok L ok cur steps = true -> Wm f -> Wm t ->
+  among f l -> among t l ->
+  among (fst (pingpong_m V L plain cur steps f t)) l /\ among (snd (pingpong_m V L plain cur steps f t)) l /\
+  Wm (fst (pingpong_m V L plain cur steps f t)) /\ Wm (snd (pingpong_m V L plain cur steps f t)).
+Proof.
+  induction steps as [|nxt r IH]; intros cur f t l Hok Wf Wt Af At; cbn [pingpong_m].
+  - cbn. repeat split; assumption.
+  - cbn [route_ok] in Hok. apply andb_prop in Hok. destruct Hok as [H1 H2].
+    destruct (plain_frw cur nxt f t H1 Wf Wt) as [Hf Ht].
+    assert (Wt' : Wm (snd (plain cur nxt f t))) by (destruct Ht as [Ht|Ht]; eapply Wm_frw; eassumption).
+    assert (At' : among (snd (plain cur nxt f t)) l) by (destruct Ht as [Ht|Ht]; eapply among_trans; eassumption).
+    apply IH; [exact H2|exact Wt'|exact (Wm_frw _ _ Hf Wf)|exact At'|exact (among_trans _ _ _ Hf Af)].
+Qed.
+
+(** without a spare buffer: beyond E each of the two arrays holds what the source or the dest array held *)
+Theorem redirect_among cur steps src dst : route_ok L ok cur steps = true -> Wm src -> Wm dst ->
+  among (fst (redirect_m V L plain cur steps src dst)) [src; dst] /\
+  among (snd (redirect_m V L plain cur steps src dst)) [src; dst].
+Proof.
+  intros Hok Ws Wd.
+  destruct (pingpong_among steps cur src dst [src; dst] Hok Ws Wd) as [Ha [Hb _]].
+  - exists src. split; [left; reflexivity|apply fr_refl].
+  - exists dst. split; [right; left; reflexivity|apply fr_refl].
+  - unfold redirect_m. destruct (Nat.even (length steps)); cbn [fst snd]; split; assumption.
+Qed.
+
+(** with a spare buffer: the source array is no output; beyond E dest and buf hold what dest or buf held *)
+Theorem redirect_intact_among cur steps src dst buf : route_ok L ok cur steps = true -> Wm src -> Wm dst -> Wm buf ->
+  among (fst (redirect_intact_m V L plain intact cur steps src dst buf)) [dst; buf] /\
+  among (snd (redirect_intact_m V L plain intact cur steps src dst buf)) [dst; buf].
+Proof.
+  intros Hok Ws Wd Wb.
+  assert (Ad : among dst [dst; buf]) by (exists dst; split; [left; reflexivity|apply fr_refl]).
+  assert (Ab : among buf [dst; buf]) by (exists buf; split; [right; left; reflexivity|apply fr_refl]).
+  destruct steps as [|l1 r]; [split; assumption|].
+  cbn [route_ok] in Hok. apply andb_prop in Hok. destruct Hok as [H1 H2].
+  unfold redirect_intact_m. destruct (Nat.even (length (l1 :: r))).
+  - destruct (intact_frw cur l1 src buf dst H1 Ws Wb Wd) as [Hb Hd].
+    destruct (pingpong_among r l1 _ _ [dst; buf] H2 (Wm_frw _ _ Hb Wb) (Wm_frw _ _ Hd Wd)
+                (among_trans _ _ _ Hb Ab) (among_trans _ _ _ Hd Ad)) as [Ha [Hc _]]. split; assumption.
+  - destruct (intact_frw cur l1 src dst buf H1 Ws Wd Wb) as [Hd Hb].
+    destruct (pingpong_among r l1 _ _ [dst; buf] H2 (Wm_frw _ _ Hd Wd) (Wm_frw _ _ Hb Wb)
+                (among_trans _ _ _ Hd Ad) (among_trans _ _ _ Hb Ab)) as [Ha [Hc _]]. split; assumption.
+Qed.
+
+(** the data *)
+Variable Hd : L -> mems -> Prop.
+Hypothesis plain_hd : forall l l' f t, ok l l' = true -> Wm f -> Wm t -> Hd l f -> Hd l' (snd (plain l l' f t)).
+Hypothesis intact_hd : forall l l' f t s, ok l l' = true -> Wm f -> Wm t -> Wm s -> Hd l f -> Hd l' (fst (intact l l' f t s)).
+
+Lemma pingpong_hdw : forall steps cur f t, route_ok L ok cur steps = true -> Wm f -> Wm t -> Hd cur f ->
+  Hd (last steps cur) (fst (pingpong_m V L plain cur steps f t)).
+Proof.
+  induction steps as [|nxt r IH]; intros cur f t Hok Wf Wt H; cbn [pingpong_m]; [exact H|].
+  cbn [route_ok] in Hok. apply andb_prop in Hok. destruct Hok as [H1 H2].
+  destruct (plain_frw cur nxt f t H1 Wf Wt) as [Hf Ht].
+  assert (Wt' : Wm (snd (plain cur nxt f t))) by (destruct Ht as [Ht|Ht]; eapply Wm_frw; eassumption).
+  rewrite last_cons_m. apply IH; [exact H2|exact Wt'|exact (Wm_frw _ _ Hf Wf)|]. apply plain_hd; assumption.
+Qed.
+
+Theorem redirect_hdw cur steps src dst : route_ok L ok cur steps = true -> Wm src -> Wm dst -> Hd cur src ->
+  Hd (last steps cur) (snd (redirect_m V L plain cur steps src dst)).
+Proof.
+  intros Hok Ws Wd H. pose proof (pingpong_hdw steps cur src dst Hok Ws Wd H) as HH. unfold redirect_m.
+  destruct (Nat.even (length steps)); exact HH.
+Qed.
+
+Theorem redirect_intact_hdw cur steps src dst buf : steps <> [] -> route_ok L ok cur steps = true ->
+  Wm src -> Wm dst -> Wm buf -> Hd cur src ->
+  Hd (last steps cur) (fst (redirect_intact_m V L plain intact cur steps src dst buf)).
+Proof.
+  intros Hne Hok Ws Wd Wb H. destruct steps as [|l1 r]; [contradiction|].
+  cbn [route_ok] in Hok. apply andb_prop in Hok. destruct Hok as [H1 H2].
+  rewrite last_cons_m. unfold redirect_intact_m. destruct (Nat.even (length (l1 :: r))).
+  - destruct (intact_frw cur l1 src buf dst H1 Ws Wb Wd) as [Hb Hdd].
+    apply pingpong_hdw; [exact H2|exact (Wm_frw _ _ Hb Wb)|exact (Wm_frw _ _ Hdd Wd)|]. apply intact_hd; assumption.
+  - destruct (intact_frw cur l1 src dst buf H1 Ws Wd Wb) as [Hdd Hb].
+    apply pingpong_hdw; [exact H2|exact (Wm_frw _ _ Hdd Wd)|exact (Wm_frw _ _ Hb Wb)|]. apply intact_hd; assumption.
+Qed.
+End FrameMemW.
